@@ -3,4 +3,5 @@ CONSTANTS
   Big = TRUE
 SPECIFICATION Spec
 INVARIANT PairLaws
+INVARIANT Emit
 CHECK_DEADLOCK FALSE
